@@ -702,12 +702,14 @@ where
 	// if self sending, make sure to store 'initiator' keys
 	// (only the context saved when this wallet itself issued the invoice means self-sending)
 	let context_res = match w.get_private_context(keychain_mask, slate.id.as_bytes()) {
-		// left by an earlier processing of this same invoice: start afresh
-		Ok(c) if c.calculated_excess.is_some() => {
-			Err(Error::GenericError("stale invoice context".to_owned()))
-		}
-		// the id is that of one of this wallet's own pending sends
-		Ok(c) if !c.input_ids.is_empty() || c.late_lock_args.is_some() => {
+		// the context was left by an earlier processing of this same invoice (whose reply,
+		// with the inputs selected then, may already be with the invoicer), or the id is
+		// that of one of this wallet's own pending sends
+		Ok(c)
+			if c.calculated_excess.is_some()
+				|| !c.input_ids.is_empty()
+				|| c.late_lock_args.is_some() =>
+		{
 			return Err(Error::TransactionAlreadyReceived(ret_slate.id.to_string()));
 		}
 		r => r,
